@@ -19,7 +19,8 @@ func init() {
 			"R2 the call through field M_ is dominated by `f != nil` and `f.M_ != nil` for the SAME field, passes the parameters in order and returns the results unchanged; " +
 			"R3 every other return is (zero..., f.newError(...)) or ErrorSeq(f.newError(...)), and newError dereferences f only under f != nil; " +
 			"R4 no other potentially panicking instruction exists in these methods (index, slice, type assertion, division, explicit panic, unguarded field access of f). " +
-			"R4 the methods of Funcs write no package-level state.",
+			"R4 the methods of Funcs write no package-level state. " +
+			"R5 every error the fallback builds from ErrUnsupported wraps it with %w.",
 		NotDecided: "nothing of the statement is left out: the rule set decides the property for the code as written (assuming the function values themselves, supplied by the user of Funcs, do not panic, and that no other goroutine mutates the table during a call).",
 		Technique:  "static analysis: SSA dominance (guard on the same field), argument/result provenance, go/types bijection Interface<->Funcs, panic-site inventory",
 	})
@@ -44,6 +45,7 @@ func runC20(c *core.Ctx) {
 		}
 	}
 	noPackageState(c, "C20.R4", "the function-table registry", funcsMethods)
+	unsupportedErrorAlwaysWrapped(c, "C20.R5")
 	ims := ifaceMethods(c)
 	if len(ims) == 0 {
 		c.Fail("C20.R0", "anchor/Interface.methods", 0, "Interface has no exported methods")
